@@ -124,6 +124,7 @@ fn key_of(p: &Position) -> Key {
 
 /// everything the selected properties want to know about one state
 pub fn check_state(rp: &Position, board: &Board, played: bool, props: &Props, want_children: bool, special_only: bool) -> (Vec<Divergence>, StateStats, Vec<(Mv, Position, Option<Board>)>, u64) {
+    set_case(|| json!({"property": "C01", "case": {"kind": "state", "root": rp.to_fen(), "moves": []}}).to_string());
     let legal = rp.legal_moves();
     let mut st = classify(rp, &legal);
     st.legality_filter_bites = rp.pseudo_legal().len() != legal.len();
